@@ -91,6 +91,7 @@ class Exec:
         s.solver = z3.Solver(); s.solver.set('timeout', min(feas_timeout_ms, 5000))
         s.nq = 0; s.tq = 0.0; s.fresh = 0; s.axioms = []; s._lay = {}; s._ipdom = {}
         s.npaths = 0; s.nmerged = 0; s.ninstr = 0; s.fork_symbolic_memcpy = False
+        s.slicing = True; s._vars = {}; s._keep = []
         s.is_shared = None     # callable(st, ptr) -> bool: accesses to shared cells are scheduling points (llconc)
         s.called = set()
     # ---------- layout
@@ -589,11 +590,40 @@ class Exec:
             for b in range(n): o.cells[dst.off + b] = (bv, 1)
         return True
     # ---------- solver
+    def vars_of(s, e):
+        """set of ids of the uninterpreted constants in e (cached by ast id)"""
+        c = s._vars
+        k = e.get_id()
+        if k in c: return c[k]
+        out = set(); seen = set(); todo = [e]
+        while todo:
+            x = todo.pop(); i = x.get_id()
+            if i in seen: continue
+            seen.add(i)
+            if i in c and x is not e: out |= c[i]; continue
+            if z3.is_const(x):
+                if x.decl().kind() == z3.Z3_OP_UNINTERPRETED: out.add(i)
+            else: todo.extend(x.children())
+        r = frozenset(out); c[k] = r; s._keep.append(e); return r
     def feasible(s, pc):
-        t = time.time(); s.solver.push(); s.solver.add(*s.axioms); s.solver.add(*pc); r = s.solver.check(); s.solver.pop(); s.nq += 1; s.tq += time.time() - t
+        """is pc satisfiable? pc[:-1] is satisfiable by construction (path invariant), so only the constraints that share
+        variables (transitively) with the newest one are sent to the solver (independence slicing)."""
+        t = time.time()
+        if s.slicing and len(pc) > 1 and not s.axioms:
+            new = pc[-1]; need = set(s.vars_of(new)); rest = [(c, s.vars_of(c)) for c in pc[:-1]]; sel = [new]
+            changed = True
+            while changed:
+                changed = False; keep = []
+                for c, vs in rest:
+                    if vs & need: sel.append(c); need |= vs; changed = True
+                    else: keep.append((c, vs))
+                rest = keep
+            q = sel
+        else: q = list(s.axioms) + list(pc)
+        s.solver.push(); s.solver.add(*q); r = s.solver.check(); s.solver.pop(); s.nq += 1; s.tq += time.time() - t
         if r == z3.unknown:
             from . import smt
-            t = time.time(); rr, _, info = smt.solve(list(s.axioms) + list(pc), 90, z3_first_s=1); s.tq += time.time() - t
+            t = time.time(); rr, _, info = smt.solve(q, 90, z3_first_s=1); s.tq += time.time() - t
             if rr == 'unknown': raise Unsupported('solver unknown on path feasibility')
             return rr == 'sat'
         return r == z3.sat
@@ -698,7 +728,8 @@ class Exec:
         join = None
         if s.merge:
             j = s.ipdoms(fr.fn).get(fr.blk)
-            if j is not None: join = (len(st.stack), fr.fn.name, j)
+            # a join at the unified return block means one side leaves the function early: fork instead of nesting the rest of the function
+            if j is not None and fr.fn.blocks[j][-1].op != 'ret': join = (len(st.stack), fr.fn.name, j)
         if join is None or (stop is not None and join == stop and False):
             outs = []
             for c, t in feas[1:]:
